@@ -6,6 +6,9 @@ use std::io::{BufRead, BufWriter, Write};
 
 mod util;
 mod c11;
+mod doc;
+mod c02;
+mod c06;
 
 pub use util::*;
 
@@ -20,6 +23,8 @@ pub struct Prop {
 fn props() -> Vec<Prop> {
     vec![
         Prop { id: "C11", run: c11::run, gen: c11::gen },
+        Prop { id: "C02", run: c02::run, gen: c02::gen },
+        Prop { id: "C06", run: c06::run, gen: c06::gen },
     ]
 }
 
